@@ -629,9 +629,17 @@ func (po *PinOptions) Equals(po2 *PinOptions) bool {
 		return false
 	}
 
+	// Metadata must have the same keys with the same values. The
+	// empty key is ignored as it is never serialized.
 	for k, v := range po.Metadata {
-		v2 := po2.Metadata[k]
-		if k != "" && v != v2 {
+		v2, ok := po2.Metadata[k]
+		if k != "" && (!ok || v != v2) {
+			return false
+		}
+	}
+	for k := range po2.Metadata {
+		_, ok := po.Metadata[k]
+		if k != "" && !ok {
 			return false
 		}
 	}
@@ -648,6 +656,17 @@ func (po *PinOptions) Equals(po2 *PinOptions) bool {
 		found := false
 		for _, o2 := range po2.Origins {
 			if o1.Equal(o2) {
+				found = true
+			}
+		}
+		if !found {
+			return false
+		}
+	}
+	for _, o2 := range po2.Origins {
+		found := false
+		for _, o1 := range po.Origins {
+			if o2.Equal(o1) {
 				found = true
 			}
 		}
